@@ -14,9 +14,9 @@ func init() { register("C01", checkC01, "./db19/...") }
 // db19 anchors shared by several properties
 type db19A struct {
 	ovInsert, ovDelete, ovUpdate, ovLookup *types.Func
-	utRead, utCk                          *types.Func
-	ckRead, ckOutput, ckDelete, ckUpdate  *types.Func // Checker interface methods
-	mutators                              []*FuncSrc  // functions of db19 that mutate an index overlay
+	utRead, utCk                           *types.Func
+	ckRead, ckOutput, ckDelete, ckUpdate   *types.Func // Checker interface methods
+	mutators                               []*FuncSrc  // functions of db19 that mutate an index overlay
 }
 
 func getDb19(c *Ctx, rule string) *db19A {
@@ -351,6 +351,8 @@ func checkC01(c *Ctx) string {
 		c.RequireBefore(r7+" (commit time assigned before the move)", res, "cmtdTran[]=", 1, "end=next()")
 		c.RequireBefore(r7+" (removed from active before listed as committed)", res, "cmtdTran[]=", 1, "delete(actvTran)")
 	}
+	// ---- 8. the checker's ordered sets
+	checkBoundedSlotReads(c, "C01.8 K4c the checker's read/write sets compare a slot only inside their size (every written key is recorded)")
 	return "Static wiring of the optimistic concurrency control: every store of an OverIter position is followed on all normal paths by a read registration whose range spans " +
 		"old position..new position (or ..range bound at eof); point lookups in UpdateTran methods are paired with UpdateTran.Read; scans driven by the non-registering fkeyTran " +
 		"register by hand; UpdateTran declares (does not inherit) the tracking methods; every Overlay.Insert/Delete/Update in db19 is dominated by t.ck(Checker.X(...)); the conflict " +
